@@ -111,11 +111,11 @@ theorem decodeItem_members {b : Bytes} (fill : UInt8) (ms : List MemberS) (fuel 
 theorem commentBytes_length_ge (fill : UInt8) (c : CommentS) : 1 ≤ (commentBytes fill c).length := by
   simp only [commentBytes, List.length_append, leBytes_length]; omega
 
-theorem commentsBody_length_ge (fill : UInt8) (cs : List CommentS) : cs.length ≤ (commentsBody fill cs).length := by
+theorem commentsBodyRaw_length_ge (fill : UInt8) (cs : List CommentS) : cs.length ≤ (commentsBodyRaw fill cs).length := by
   induction cs with
   | nil => simp
   | cons m r ih =>
-    rw [commentsBody_cons, List.length_append]
+    rw [commentsBodyRaw_cons, List.length_append]
     have := commentBytes_length_ge fill m
     simp only [List.length_cons]; omega
 
@@ -129,6 +129,17 @@ theorem commentOk_of {c : CommentS}
     simp only [Bool.and_eq_true, decide_eq_true_eq] at hl he
     exact ⟨hl.1, he.1, t, rfl, he.2, hl.2⟩
 
+/-- finishing the pending last comment does not change what a traversal reports (the empty text) -/
+theorem finishLast_map_commentTree : ∀ (cs : List CommentS), (finishLast cs).map commentTree = cs.map commentTree
+  | [] => rfl
+  | [c] => by
+    obtain ⟨date, uid, user, text⟩ := c
+    cases text <;> rfl
+  | c :: d :: r => by
+    have ih := finishLast_map_commentTree (d :: r)
+    simp only [finishLast, List.map_cons] at ih ⊢
+    rw [ih]
+
 theorem decodeItem_discussion {b : Bytes} (fill : UInt8) (cs : List CommentS) (fuel off lim : Nat)
     (hat : At b off (subBytes fill (.discussion cs)))
     (hlim : off + (subBytes fill (.discussion cs)).length ≤ lim) (hb : lim ≤ b.length)
@@ -139,14 +150,15 @@ theorem decodeItem_discussion {b : Bytes} (fill : UInt8) (cs : List CommentS) (f
   obtain ⟨f, rfl⟩ : ∃ f, fuel = f + 1 := ⟨fuel - 1, by omega⟩
   obtain ⟨e1, e2, e3, hbody⟩ := sub_header hat hsz
   rw [subBytes_length] at hlim
-  simp only [SubS.body, SubS.ty] at *
-  have hp := Buf.padded_ge (8 + (commentsBody fill cs).length)
-  have hd := decodeComments_at fill cs (off + 8) (off + (8 + (commentsBody fill cs).length))
-    (8 + (commentsBody fill cs).length + 1)
+  simp only [SubS.body, SubS.ty, commentsBody] at *
+  have hp := Buf.padded_ge (8 + (commentsBodyRaw fill (finishLast cs)).length)
+  have hd := decodeComments_at fill (finishLast cs) (off + 8) (off + (8 + (commentsBodyRaw fill (finishLast cs)).length))
+    (8 + (commentsBodyRaw fill (finishLast cs)).length + 1)
     hbody (by omega) (by omega) (by
       intro c hc
       simp only [SubS.extraOk, SubS.lengthsOk, List.all_eq_true] at he hl
-      exact commentOk_of (hl c hc) (he c hc)) (by have := commentsBody_length_ge fill cs; omega)
+      exact commentOk_of (hl c hc) (he c hc)) (by have := commentsBodyRaw_length_ge fill (finishLast cs); omega)
+  rw [finishLast_map_commentTree] at hd
   rw [decodeItem]
   simp only [e1, e2, e3]
   rw [if_neg (by omega), if_neg (by omega), if_neg (by decide), if_neg (by decide), if_neg (by decide),
